@@ -548,13 +548,19 @@ func TestPropRealText(t *testing.T) {
 // ---- 4. history independence ----
 
 type histOp struct {
-	Op  string `json:"op"`  // init | line | grapheme | word | step
-	Arg int    `json:"arg"` // init: text index; step: iterator index (modulo live iterators)
-	N   int    `json:"n"`   // step: number of Next calls
+	// init  : Init with a freshly allocated copy of Texts[Arg]
+	// inita : Init with the sub-slice Arena[Arg:N] of the one shared backing array
+	// write : the caller overwrites Arena[Arg:Arg+len(Data)] in place
+	// line | grapheme | word : create an iterator ; step : N Next calls on live iterator Arg (modulo)
+	Op   string  `json:"op"`
+	Arg  int     `json:"arg"`
+	N    int     `json:"n"`
+	Data []int32 `json:"data,omitempty"`
 }
 
 type histCase struct {
 	Texts [][]int32 `json:"texts"`
+	Arena []int32   `json:"arena,omitempty"` // initial content of the shared backing array
 	Ops   []histOp  `json:"ops"`
 }
 
@@ -590,8 +596,16 @@ func freshOutputs(text []rune) (lines, graphemes, words []outRec, flags []bool) 
 }
 
 // checkHistory runs the operations on ONE Segmenter and requires every iterator to produce exactly
-// what the same kind of iterator produces on a fresh Segmenter initialised with the same text.
-// Iterators are only used while the text they were created for is current.
+// what the same kind of iterator produces on a fresh Segmenter initialised with a copy of the
+// content the paragraph had when Init was called. Besides freshly allocated paragraphs, the
+// caller (this test) keeps one backing array: it passes sub-slices of it to Init (the same slice
+// again, the same slice after an in-place edit, overlapping slices of other lengths) and edits it
+// in place between calls, as a text editor re-segmenting its buffer would.
+//
+// What is NOT demanded: nothing is said about iterators once their paragraph has been edited by
+// the caller (whether Init copies its input is not documented): before an edit that touches the
+// current paragraph all live iterators are drained and compared, and no iterator is created until
+// the next Init. Returned Text slices are compared by value at the time of the call.
 func checkHistory(t ev.TB, hc histCase) {
 	// failures are recorded and raised outside the recover()-guarded region (rapid's Fatalf panics)
 	failMsg := ""
@@ -600,27 +614,34 @@ func checkHistory(t ev.TB, hc histCase) {
 			failMsg = fmt.Sprintf(format, args...)
 		}
 	}
+	toRunes := func(x []int32) []rune {
+		out := make([]rune, len(x))
+		for j, r := range x {
+			out[j] = r
+		}
+		return out
+	}
 	texts := make([][]rune, len(hc.Texts))
 	for i, x := range hc.Texts {
-		texts[i] = make([]rune, len(x))
-		for j, r := range x {
-			texts[i][j] = r
-		}
+		texts[i] = toRunes(x)
 	}
+	arena := toRunes(hc.Arena)
 	var (
 		seg      segmenter.Segmenter
 		live     []*liveIter
-		cur      = -1
+		have     bool   // an Init happened
+		stale    bool   // the caller edited the current paragraph after Init
+		curText  []rune // copy of the paragraph content at Init time
+		curDesc  string
+		curLo    = -1 // the current paragraph is arena[curLo:curHi] (-1: a fresh slice)
+		curHi    = -1
 		wantL    []outRec
 		wantG    []outRec
 		wantW    []outRec
 		panicked any
 	)
 	step := func(it *liveIter, n int) {
-		limit := 0
-		if cur >= 0 {
-			limit = len(texts[cur]) + 2
-		}
+		limit := len(curText) + 2
 		for ; n != 0 && !it.done; n-- {
 			r, ok := it.next()
 			if !ok {
@@ -655,12 +676,35 @@ func checkHistory(t ev.TB, hc histCase) {
 				want = wantW
 			}
 			if !equal(it.got, want) {
-				fail("after op %d: %s iterator #%d on the reused Segmenter (text %d, %d runes) yields %v, a fresh Segmenter yields %v",
-					opIndex, it.kind, k, cur, len(texts[cur]), it.got, want)
+				fail("before op %d: %s iterator #%d on the reused Segmenter (%s, %d runes) yields %v, a fresh Segmenter on the same content yields %v",
+					opIndex, it.kind, k, curDesc, len(curText), it.got, want)
 				return false
 			}
 		}
 		live = live[:0]
+		return true
+	}
+	// doInit: paragraph is what the caller passes; its content is snapshotted first
+	doInit := func(oi int, paragraph []rune, desc string) bool {
+		if have && !drain(oi) {
+			return false
+		}
+		have, stale, curDesc = true, false, desc
+		curText = append([]rune(nil), paragraph...)
+		seg.Init(paragraph)
+		var flags []bool
+		wantL, wantG, wantW, flags = freshOutputs(curText)
+		got := seg.VerifWordBoundaries()
+		if len(got) != len(flags) {
+			fail("op %d (%s): reused Segmenter holds %d word flags, a fresh one %d", oi, desc, len(got), len(flags))
+			return false
+		}
+		for i := range got {
+			if got[i] != flags[i] {
+				fail("op %d (%s): word boundary flag %d differs between the reused (%v) and a fresh Segmenter (%v)", oi, desc, i, got[i], flags[i])
+				return false
+			}
+		}
 		return true
 	}
 	run := func() {
@@ -675,26 +719,36 @@ func checkHistory(t ev.TB, hc histCase) {
 				if op.Arg < 0 || op.Arg >= len(texts) {
 					continue
 				}
-				if cur >= 0 && !drain(oi) {
+				curLo, curHi = -1, -1
+				// a freshly allocated slice for every call
+				if !doInit(oi, append([]rune(nil), texts[op.Arg]...), fmt.Sprintf("fresh text %d", op.Arg)) {
 					return
 				}
-				cur = op.Arg
-				seg.Init(texts[cur])
-				var flags []bool
-				wantL, wantG, wantW, flags = freshOutputs(texts[cur])
-				got := seg.VerifWordBoundaries()
-				if len(got) != len(flags) {
-					fail("op %d: reused Segmenter holds %d word flags, fresh one %d", oi, len(got), len(flags))
+			case "inita":
+				lo, hi := op.Arg, op.N
+				if lo < 0 || hi > len(arena) || lo > hi {
+					continue
+				}
+				curLo, curHi = lo, hi
+				if !doInit(oi, arena[lo:hi], fmt.Sprintf("arena[%d:%d]", lo, hi)) {
 					return
 				}
-				for i := range got {
-					if got[i] != flags[i] {
-						fail("op %d: word boundary flag %d differs between the reused (%v) and a fresh Segmenter (%v)", oi, i, got[i], flags[i])
+			case "write":
+				lo, hi := op.Arg, op.Arg+len(op.Data)
+				if lo < 0 || hi > len(arena) {
+					continue
+				}
+				if have && curLo >= 0 && lo < curHi && hi > curLo { // touches the current paragraph
+					if !drain(oi) {
 						return
 					}
+					stale = true
+				}
+				for j, r := range op.Data {
+					arena[lo+j] = r
 				}
 			case "line":
-				if cur < 0 {
+				if !have || stale {
 					continue
 				}
 				it := seg.LineIterator()
@@ -706,7 +760,7 @@ func checkHistory(t ev.TB, hc histCase) {
 					return outRec{l.Offset, string(l.Text), l.IsMandatoryBreak}, true
 				}})
 			case "grapheme":
-				if cur < 0 {
+				if !have || stale {
 					continue
 				}
 				it := seg.GraphemeIterator()
@@ -718,7 +772,7 @@ func checkHistory(t ev.TB, hc histCase) {
 					return outRec{g.Offset, string(g.Text), false}, true
 				}})
 			case "word":
-				if cur < 0 {
+				if !have || stale {
 					continue
 				}
 				it := seg.WordIterator()
@@ -736,7 +790,7 @@ func checkHistory(t ev.TB, hc histCase) {
 				step(live[((op.Arg%len(live))+len(live))%len(live)], op.N)
 			}
 		}
-		if cur >= 0 {
+		if have {
 			drain(len(hc.Ops))
 		}
 	}
@@ -751,31 +805,67 @@ func checkHistory(t ev.TB, hc histCase) {
 
 var histLens = []int{0, 1, 2, 3, 5, 9, 17, 33, 64, 150}
 
+func toInt32(text []rune) []int32 {
+	rs := make([]int32, len(text))
+	for j, r := range text {
+		rs[j] = r
+	}
+	return rs
+}
+
+// genExact generates exactly n runes.
+func genExact(t *rapid.T, n int) []rune {
+	out := make([]rune, 0, n)
+	for tries := 0; len(out) < n && tries < 8; tries++ {
+		out = append(out, genText(t, n-len(out), nil)...)
+	}
+	for len(out) < n {
+		out = append(out, pick(t, pools().all))
+	}
+	return out[:n]
+}
+
 func TestPropHistory(t *testing.T) {
 	rapid.Check(t, func(rt *rapid.T) {
 		var hc histCase
-		nTexts := rapid.IntRange(2, 6).Draw(rt, "ntexts")
 		kinds := map[string]bool{}
 		grow, shrink := false, false
 		prevLen := -1
-		for i := 0; i < nTexts; i++ {
-			maxLen := histLens[rapid.IntRange(0, len(histLens)-1).Draw(rt, "lenclass")]
-			text := genText(rt, maxLen, nil)
-			rs := make([]int32, len(text))
-			for j, r := range text {
-				rs[j] = r
-			}
-			hc.Texts = append(hc.Texts, rs)
-			hc.Ops = append(hc.Ops, histOp{Op: "init", Arg: i})
-			if prevLen >= 0 && len(text) > prevLen {
+		note := func(n int) {
+			if prevLen >= 0 && n > prevLen {
 				grow = true
 			}
-			if prevLen >= 0 && len(text) < prevLen {
+			if prevLen >= 0 && n < prevLen {
 				shrink = true
 			}
-			prevLen = len(text)
+			prevLen = n
+		}
+		// the caller's reusable buffer
+		arenaLen := histLens[rapid.IntRange(2, len(histLens)-1).Draw(rt, "arenaclass")]
+		arena := genExact(rt, arenaLen)
+		hc.Arena = toInt32(arena)
+		lastLo, lastHi := -1, -1
+		inita := func(lo, hi int, label string) {
+			hc.Ops = append(hc.Ops, histOp{Op: "inita", Arg: lo, N: hi})
+			lastLo, lastHi = lo, hi
+			kinds[label] = true
+			note(hi - lo)
+		}
+		write := func(lo int, data []rune, label string) {
+			if len(data) == 0 {
+				return
+			}
+			hc.Ops = append(hc.Ops, histOp{Op: "write", Arg: lo, Data: toInt32(data)})
+			kinds[label] = true
+		}
+		randomSlice := func() (int, int) {
+			lo := rapid.IntRange(0, arenaLen).Draw(rt, "lo")
+			hi := rapid.IntRange(lo, arenaLen).Draw(rt, "hi")
+			return lo, hi
+		}
+		iterOps := func() {
 			for m := rapid.IntRange(0, 7).Draw(rt, "nops"); m > 0; m-- {
-				switch k := rapid.IntRange(0, 5).Draw(rt, "op"); k {
+				switch k := rapid.IntRange(0, 6).Draw(rt, "op"); k {
 				case 0:
 					hc.Ops = append(hc.Ops, histOp{Op: "line"})
 					kinds["line"] = true
@@ -785,11 +875,72 @@ func TestPropHistory(t *testing.T) {
 				case 2:
 					hc.Ops = append(hc.Ops, histOp{Op: "word"})
 					kinds["word"] = true
+				case 3:
+					// the caller edits its buffer somewhere while iterators may be live (an edit that
+					// touches the current paragraph ends the use of its iterators, see checkHistory)
+					lo := rapid.IntRange(0, arenaLen-1).Draw(rt, "wlo")
+					n := rapid.IntRange(1, 4).Draw(rt, "wn")
+					if lo+n > arenaLen {
+						n = arenaLen - lo
+					}
+					write(lo, genExact(rt, n), "arena:edit-while-iterating")
 				default:
 					hc.Ops = append(hc.Ops, histOp{Op: "step", Arg: rapid.IntRange(0, 5).Draw(rt, "iter"), N: rapid.IntRange(1, 4).Draw(rt, "n")})
 					kinds["interleaved-steps"] = true
 				}
 			}
+		}
+		nInits := rapid.IntRange(2, 7).Draw(rt, "ninits")
+		for i := 0; i < nInits; i++ {
+			mode := rapid.IntRange(0, 7).Draw(rt, "mode")
+			if lastLo < 0 && mode >= 3 {
+				mode = 2
+			}
+			switch mode {
+			case 0, 1: // a freshly allocated paragraph
+				maxLen := histLens[rapid.IntRange(0, len(histLens)-1).Draw(rt, "lenclass")]
+				text := genText(rt, maxLen, nil)
+				hc.Texts = append(hc.Texts, toInt32(text))
+				hc.Ops = append(hc.Ops, histOp{Op: "init", Arg: len(hc.Texts) - 1})
+				kinds["fresh-slice"] = true
+				note(len(text))
+			case 2: // some sub-slice of the buffer
+				lo, hi := randomSlice()
+				inita(lo, hi, "arena:sub-slice")
+			case 3: // the same slice again, unchanged
+				inita(lastLo, lastHi, "arena:same-slice-unchanged")
+			case 4: // the same slice after an in-place edit (same backing array, same length)
+				if n := lastHi - lastLo; n > 0 {
+					if chance(rt, 50) {
+						write(lastLo, genExact(rt, n), "arena:rewrite-whole-slice")
+					} else {
+						lo := rapid.IntRange(lastLo, lastHi-1).Draw(rt, "elo")
+						k := rapid.IntRange(1, 3).Draw(rt, "ek")
+						if lo+k > lastHi {
+							k = lastHi - lo
+						}
+						write(lo, genExact(rt, k), "arena:edit-inside-slice")
+					}
+				}
+				inita(lastLo, lastHi, "arena:same-slice-after-edit")
+			case 5: // same start, other length (over the same array)
+				hi := rapid.IntRange(lastLo, arenaLen).Draw(rt, "hi2")
+				if chance(rt, 40) && lastHi > lastLo {
+					write(lastLo, genExact(rt, 1), "arena:edit-first-rune")
+				}
+				inita(lastLo, hi, "arena:same-start-other-length")
+			case 6: // an overlapping slice of the same length, shifted
+				n := lastHi - lastLo
+				lo := rapid.IntRange(0, arenaLen-n).Draw(rt, "shift")
+				inita(lo, lo+n, "arena:same-length-shifted")
+			default: // edit the previous paragraph, then segment something else
+				if n := lastHi - lastLo; n > 0 {
+					write(lastLo, genExact(rt, n), "arena:edit-previous-paragraph")
+				}
+				lo, hi := randomSlice()
+				inita(lo, hi, "arena:sub-slice")
+			}
+			iterOps()
 		}
 		checkHistory(rt, hc)
 		labels := []string{}
@@ -802,14 +953,23 @@ func TestPropHistory(t *testing.T) {
 		if shrink {
 			labels = append(labels, "history:shorter-after-longer")
 		}
-		// non-trivial: at least two non-empty texts of different lengths and at least one iterator
-		nonEmpty := 0
-		for _, x := range hc.Texts {
-			if len(x) > 0 {
-				nonEmpty++
+		// non-trivial: at least two Inits with a non-empty paragraph, at least one iterator, and
+		// either the length changes or the backing array is reused
+		nonEmpty, reused := 0, 0
+		for _, op := range hc.Ops {
+			switch op.Op {
+			case "init":
+				if len(hc.Texts[op.Arg]) > 0 {
+					nonEmpty++
+				}
+			case "inita":
+				if op.N > op.Arg {
+					nonEmpty++
+					reused++
+				}
 			}
 		}
-		nt := nonEmpty >= 2 && (grow || shrink) && (kinds["line"] || kinds["grapheme"] || kinds["word"])
+		nt := nonEmpty >= 2 && (grow || shrink || reused >= 2) && (kinds["line"] || kinds["grapheme"] || kinds["word"])
 		ev.Case(nt, hc, labels...)
 		if nt && ev.WantSample() {
 			ev.Sample(hc)
